@@ -5,6 +5,7 @@ from typing import ClassVar
 
 from tree_sitter import Node
 
+from nix_manipulator.expressions.points import point_column
 from nix_manipulator.expressions.expression import TypedExpression
 
 
@@ -40,7 +41,7 @@ class Comment(TypedExpression):
             if inner.endswith("*/"):
                 inner = inner[:-2]
             if "\n" in inner:
-                indent_prefix = " " * node.start_point.column
+                indent_prefix = " " * point_column(node.start_point)
                 lines = inner.split("\n")
                 # The padding next to the delimiters is re-added by rebuild(): keeping it
                 # here would grow the comment by one space on every round trip.
